@@ -668,6 +668,13 @@ pub fn rand_scalar(r: &mut ChaCha20Rng) -> Vec<u8> {
             let a = scalar_alphabet();
             a[below(r, a.len())].clone()
         }
+        6 => {
+            // in [2^250, r): the top bit of the scalar field's bit size is used
+            let mut b = rbytes(r, 32);
+            b[31] = 0x04;
+            b[30] &= 0x7f;
+            b
+        }
         _ => {
             let mut b = rbytes(r, 32);
             b[31] &= 0x03; // < 2^250 < r
@@ -1306,6 +1313,46 @@ pub fn record(suite: &str, n: usize, seed: u64, arg: &str, out: &mut dyn Write) 
         // random msm instances (small, and large enough to change the window size of a Pippenger-style msm)
         "msm" => {
             let mut m = Machine::new(out);
+            // structured part: every scalar of the alphabet (boundary values, word patterns) through every MSM entry
+            // point, alone and next to a small term; and the term counts at which generic MSM code changes its window
+            // width (32, 33; 2049 in long runs), with full-size scalars in [2^250, r) among small ones
+            load_alphabet(&mut m, &mut r);
+            let sa = scalar_alphabet();
+            for (j, k) in sa.iter().enumerate() {
+                if j % 12 == 11 {
+                    load_alphabet(&mut m, &mut r);
+                }
+                for f in 0..MSM_FORMS.len() {
+                    if (j + f) % 2 == 0 {
+                        m.msm(f, &[k.clone()], &[2 + (j % 10)], 0);
+                    } else {
+                        m.msm(f, &[vec![3u8], k.clone()], &[7, 2 + (j % 10)], 0);
+                    }
+                }
+            }
+            let mut counts = vec![31usize, 32, 33];
+            if n >= 100 {
+                counts.push(2049);
+            }
+            for cnt in counts {
+                for f in 0..MSM_FORMS.len() {
+                    load_alphabet(&mut m, &mut r);
+                    let srcs: Vec<usize> = (0..cnt).map(|i| 2 + (i * 5) % 10).collect();
+                    let ks: Vec<Vec<u8>> = (0..cnt)
+                        .map(|i| {
+                            if i % 16 == 5 {
+                                let mut b = rbytes(&mut r, 32);
+                                b[31] = 0x04;
+                                b[30] &= 0x7f;
+                                b
+                            } else {
+                                small_scalar(&mut r)
+                            }
+                        })
+                        .collect();
+                    m.msm(f, &ks, &srcs, 0);
+                }
+            }
             for t in 0..n {
                 load_alphabet(&mut m, &mut r);
                 let len = match t % 8 {
@@ -1374,7 +1421,11 @@ pub fn record(suite: &str, n: usize, seed: u64, arg: &str, out: &mut dyn Write) 
                 }
                 let v: Value = serde_json::from_str(line).expect("json");
                 let dst = i % NREG;
-                if v.is_array() {
+                if v.is_array() && v[0].is_array() {
+                    let pr: Vec<Vec<u8>> = serde_json::from_value(v).expect("pair");
+                    m.h2c(&fq_from(&pr[0]), &fq_from(&pr[1]), dst);
+                    m.enc(enc0, dst);
+                } else if v.is_array() {
                     let x: Vec<u8> = serde_json::from_value(v).expect("bytes");
                     m.ell(&fq_from(&x), dst);
                     m.enc(enc0, dst);
@@ -1387,6 +1438,27 @@ pub fn record(suite: &str, n: usize, seed: u64, arg: &str, out: &mut dyn Write) 
                         m.enc(enc0, dst);
                     }
                 }
+            }
+        }
+        // two-input hash on constructed PAIRS (tools/elligator_pairs.py: candidates for equal / opposite images)
+        "h2cfile" => {
+            let mut m = Machine::new(out);
+            m.reset();
+            let text = std::fs::read_to_string(arg).expect("input file");
+            let enc0 = ENC_FORMS.iter().position(|f| f.0 == "vartime_compress").unwrap();
+            for (i, line) in text.lines().enumerate() {
+                if i % 40 == 39 {
+                    m.reset();
+                }
+                let v: Vec<Vec<u8>> = serde_json::from_str(line).expect("pair of byte arrays");
+                let (x, y) = (fq_from(&v[0]), fq_from(&v[1]));
+                m.ell(&x, 1);
+                m.ell(&y, 2);
+                m.eq(0, 1, 2);
+                m.h2c(&x, &y, 3);
+                m.enc(enc0, 3);
+                m.h2c(&y, &x, 4);
+                m.eq(0, 3, 4);
             }
         }
         "ellfile" => {
